@@ -154,9 +154,42 @@ func genEarlyAnswer(t *rapid.T) (*scen.Scenario, []string) {
 	return sc, []string{"directed:answer-while-sender-in-send-path", "feat:" + held.Kind + ":early", "feat:container"}
 }
 
+// genAnswerAfterReconnect: the connection drops while calls are unanswered; answers belong to the session, so the
+// server gives them on the connection the client opens next.
+func genAnswerAfterReconnect(t *rapid.T) (*scen.Scenario, []string) {
+	s := rapidSource{t}
+	sc := scen.NewResumed(s)
+	n := rapid.IntRange(1, 4).Draw(t, "ncallers")
+	callers := scen.Callers(s, n, 1, 1+rapid.IntRange(0, 1000).Draw(t, "base"))
+	steps := []scen.Step{{Op: "call", Calls: callers}, {Op: "await-requests", N: n}}
+	var tags []int
+	for _, c := range callers {
+		tags = append(tags, c.Reqs[0].Tag)
+	}
+	order := scen.Permute(s, tags)
+	// some are answered before the drop, the rest after the client is back
+	before := rapid.IntRange(0, len(order)-1).Draw(t, "before")
+	for _, tg := range order[:before] {
+		steps = append(steps, scen.Step{Op: "answer", Items: []scen.AnsItem{{Tag: tg}}})
+	}
+	// the server learns which session the new connection belongs to from the first message on it: another request
+	steps = append(steps, scen.Step{Op: "close"}, scen.Step{Op: "await-reconnect", N: 2}, scen.Step{Op: "probe", Retry: true})
+	rest := scen.Step{Op: "answer", Container: rapid.Bool().Draw(t, "container")}
+	for _, tg := range order[before:] {
+		rest.Items = append(rest.Items, scen.AnsItem{Tag: tg, Gzip: rapid.IntRange(0, 2).Draw(t, "gzip") == 0})
+	}
+	steps = append(steps, rest, scen.Step{Op: "await-calls"}, scen.Step{Op: "probe", Retry: true})
+	sc.RPC.Steps = steps
+	sc.GoMaxProcs = rapid.SampledFrom([]int{1, 2, 16}).Draw(t, "gomaxprocs")
+	return sc, []string{"server-history:answers-after-reconnect", "feat:container"}
+}
+
 func gen(t *rapid.T) (*scen.Scenario, []string) {
-	if rapid.IntRange(0, 4).Draw(t, "family") == 0 {
+	switch rapid.IntRange(0, 5).Draw(t, "family") {
+	case 0:
 		return genEarlyAnswer(t)
+	case 1:
+		return genAnswerAfterReconnect(t)
 	}
 	s := rapidSource{t}
 	sc := scen.NewResumed(s)
